@@ -466,6 +466,25 @@ example :
     ((evs.foldl applyJ w).2.get 2).delegatee = some 5 ∧ ((evs.foldl applyJ w).2.get 5).validated = false := by
   decide
 
+/-- **the delegatee rewrite of the epoch pass is not redundant** (blockchain.go:868-870, 876-878).  An identity that is
+not validated has no stored entry (it is empty and deleted on commit) while the ledger keeps its delegatee; if the epoch
+pass only set the validated flag (`epochValidated a none` although the ledger holds `some 5`), registry and ledger would
+disagree on the delegatee of a validated identity. -/
+theorem epoch_delegatee_rewrite_needed :
+    ∃ (w : IdState × Ledger) (a : Nat), w.1.live = [] ∧ Match w ∧
+      ¬ Match (w.1.applyEv (.epochValidated a none), store w.2 a { w.2.get a with validated := true }) := by
+  refine ⟨({}, [(2, ⟨false, some 5⟩)]), 2, rfl, ?_, ?_⟩
+  · intro x
+    by_cases hx : x = 2
+    · subst hx; decide
+    · have h1 : lookup ([(2, (⟨false, some 5⟩ : LId))] : Ledger) x = none := by
+        simp only [lookup_cons, lookup_nil]; rw [if_neg (fun h => hx h.symm)]
+      simp [IdState.current, Ledger.get, h1, Entry.zero]
+  · intro h
+    have := (h 2).2 (by decide)
+    revert this
+    decide
+
 /-! ## Part 4: the Go code enumerates hash sets and maps; the order is irrelevant -/
 
 /-- `buildForkCommittee` (validators.go:131) walks `onlineAddresses.Each`: any enumeration gives the same count -/
